@@ -10,6 +10,10 @@ open Lean JrsVerif.J JrsVerif.StdObj
     {"$fn":n}                                         function of n parameters
     {"$o":[[ [name, "n"|"h"|"u", plus, term], … ], …]}  input: inheritance chain of layers
     {"$o":[[name, hidden, term], …]}                  output: flattened, all names ascending
+    {"$sup":[layer,…],"k":k,"ext":[layer,…]}          input: the VALUE of `super` (jrsonnet extension
+                                                      `local s = super`) taken inside layer k (1 ≤ k < n)
+                                                      of the chain = the object of layers 0..k-1; with
+                                                      `ext`, that value extended by further layers
     string PRODUCTIONS (input only; the value is the text, whatever built it — the harness writes
     the same text as different Jsonnet expressions, so that the evaluator holds it as a flat
     string or as ropes with different split points):
@@ -64,9 +68,8 @@ partial def toV (j : Json) : Option V :=
       match j.getObjVal? "$fn" with
       | .ok n => (n.getNat?.toOption).map V.func
       | _ =>
-        match j.getObjVal? "$o" with
-        | .ok (.arr layers) =>
-          (layers.toList.mapM (fun l =>
+        let parseLayers := fun (layers : Array Json) =>
+          layers.toList.mapM (fun l =>
             match l with
             | Json.arr fs => fs.toList.mapM (fun f =>
                 match f with
@@ -76,8 +79,23 @@ partial def toV (j : Json) : Option V :=
                     let tv ← toV t
                     pure ({ name := n, vis := vis, plus := p, val := tv } : LField)
                 | _ => none)
-            | _ => none)).map (fun ls => V.obj (flatten ls))
-        | _ => none
+            | _ => none)
+        match j.getObjVal? "$o" with
+        | .ok (.arr layers) => (parseLayers layers).map (fun ls => V.obj (flatten ls))
+        | _ =>
+          -- the value of a standalone `super` seen from layer `k` (1 ≤ k) of the chain: the object
+          -- made of the layers below `k` — whatever layer `k` and the layers above it declare —
+          -- optionally extended by the layers `ext`
+          match j.getObjVal? "$sup", j.getObjVal? "k" with
+          | .ok (.arr layers), .ok kj => do
+              let k ← kj.getNat?.toOption
+              let ls ← parseLayers layers
+              let ext ← match j.getObjVal? "ext" with
+                | .ok (.arr e) => parseLayers e
+                | _ => some []
+              if k == 0 || k ≥ ls.length + 1 then none
+              else pure (V.obj (flatten (ls.take k ++ ext)))
+          | _, _ => none
 
 partial def ofV : V → Json
   | .null => .null
@@ -163,6 +181,8 @@ def call (fn : String) (f : String) (a : List V) : Option (Option V × Option V)
     some ((asObj o).map (Model.mapWithKey f), (asObj o).map (Spec.mapWithKey f))
   | "mergePatch", [t, p] => some (Model.mergePatch t p, Spec.mergePatch t p)
   | "prune", [v] => some (Model.prune v, Spec.prune v)
+  -- the argument itself (used to dump a standalone `super` through the ObjValue interface)
+  | "value", [v] => both (force v)
   | "length", [v] => both ((Model.length v).map natV)
   | "type", [v] => both (some (.str (typeName v)))
   | "isString", [v] => both (some (.bool (isType "string" v)))
